@@ -112,7 +112,7 @@ func runC20(a *Analyzer, r *Results) {
 								if recv == "protocol."+readerName {
 									recvTerms[fc.Term(call.Call.Args[0]).Key()] = fname
 									okName := sc.Name() == fname
-									r.Check("W5.name", props("C20", "C09"), "a builder field copied from a reader of the same schema type is sourced from the accessor of the same name", shortName(f)+"|"+nt.Obj().Name()+"."+fname, a.P.InstrPos(s2), okName,
+									r.Check("W5.name", props("C20", "C09", "C11"), "a builder field copied from a reader of the same schema type is sourced from the accessor of the same name", shortName(f)+"|"+nt.Obj().Name()+"."+fname, a.P.InstrPos(s2), okName,
 										"field "+fname+" is copied from accessor "+sc.Name()+"()", "D")
 								}
 							}
@@ -127,7 +127,7 @@ func runC20(a *Analyzer, r *Results) {
 						srcs = append(srcs, fld+" <- "+prettyKeyShort(k))
 					}
 					sortStrings(srcs)
-					r.Check("W5.source", props("C20", "C09"), "all fields that a builder literal copies from a reader come from one and the same reader value (no field borrowed from a sibling structure)", shortName(f)+"|"+nt.Obj().Name()+"@"+a.P.InstrPos(al), a.P.InstrPos(al), len(recvTerms) == 1, "fields read from different readers: "+strings.Join(srcs, " ; "), "D")
+					r.Check("W5.source", props("C20", "C09", "C11"), "all fields that a builder literal copies from a reader come from one and the same reader value (no field borrowed from a sibling structure)", shortName(f)+"|"+nt.Obj().Name()+"@"+a.P.InstrPos(al), a.P.InstrPos(al), len(recvTerms) == 1, "fields read from different readers: "+strings.Join(srcs, " ; "), "D")
 					if len(recvTerms) == 1 {
 						var child *Term
 						var childRecv ssa.Value
@@ -179,7 +179,7 @@ func runC20(a *Analyzer, r *Results) {
 							}
 							if fromParentSchema && child != nil && child.Op == "call" && strings.HasPrefix(child.Name, "protocol.") {
 								okP := child.Name == "protocol."+pfield
-								r.Check("W5.nested", props("C20", "C09"), "a builder literal nested as field F of a parent literal copies from accessor F() of the parent's reader", shortName(f)+"|"+pfield, a.P.InstrPos(st2), okP, "field "+pfield+" is built from "+PP(child), "D")
+								r.Check("W5.nested", props("C20", "C09", "C11"), "a builder literal nested as field F of a parent literal copies from accessor F() of the parent's reader", shortName(f)+"|"+pfield, a.P.InstrPos(st2), okP, "field "+pfield+" is built from "+PP(child), "D")
 							}
 						}
 					}
